@@ -16,8 +16,8 @@ import (
 
 var (
 	sm2Signers  = []string{"sm2-0", "sm2-1", "sm2-2", "sm2-3", "sm2-4", "sm2-5", "sm2-direct", "sm2-ecdsa", "sm2-1-noski"}
-	rsaSigners  = []string{"rsa-0", "rsa-1", "rsa-2", "rsa-3", "rsa-4", "rsa-5"}
-	ecSigners   = []string{"ec-0", "ec-1", "ec-2", "ec-3"}
+	rsaSigners  = []string{"rsa-0", "rsa-1", "rsa-2", "rsa-3", "rsa-4", "rsa-5", "rsa-2048"}
+	ecSigners   = []string{"ec-0", "ec-1", "ec-2", "ec-3", "ec-4"}
 	shaDigests  = []string{"sha1", "sha256", "sha384", "sha512"}
 	extraCertsG = []string{"sm2-int", "sm2-root", "other-root", "rsa-root", "ec-root", "sm2-3"}
 )
